@@ -19,8 +19,10 @@ import (
 
 // HangLimit is the generous wall-clock limit after which an operation that
 // normally takes milliseconds is considered hung.  It is a hang detector, not
-// a correctness signal.
-const HangLimit = 30 * time.Second
+// a correctness signal.  A check may lower it while its library minimises a
+// failing case (every candidate that still hangs would otherwise cost the full
+// limit).
+var HangLimit = 30 * time.Second
 
 // Pair is a two-party world: parties 0 and 1 with one ledger channel and at
 // most one open sub-channel, driven step by step by a scenario.
@@ -33,6 +35,20 @@ type Pair struct {
 	SubBy  int // party that proposed the open sub-channel (index 0 inside it)
 
 	accept [2]atomic.Bool // decision of party i for the next incoming update
+
+	// CtxEndsAfterAccept[i]: the context party i's handler passes to Accept is
+	// cancelled the moment its acceptance is on the wire (an application that
+	// releases the update's context early, or a deadline that expires right
+	// after the last message of the update).  No request times out by this.
+	CtxEndsAfterAccept [2]atomic.Bool
+	// HandlerDelay[i] (nanoseconds): party i's update handler waits that long
+	// before it answers (real time; it only shapes the schedule)
+	HandlerDelay [2]atomic.Int64
+	// HandlerEntered[i] receives a token (non-blocking) whenever party i's update
+	// handler is entered (the client holds the channel's machine mutex then)
+	HandlerEntered [2]chan struct{}
+	accMu          sync.Mutex
+	accCancel      [2]context.CancelFunc
 }
 
 // NewPair creates two honest parties (pool keys key0, key1).
@@ -50,11 +66,24 @@ func NewPairOpt(ser wire.EnvelopeSerializer, key0, key1 int, watch [2]bool) (*Pa
 			return nil, err
 		}
 		pr.P[i] = p
+		pr.HandlerEntered[i] = make(chan struct{}, 64)
 		pr.accept[i].Store(true)
 		i := i
 		p.SetHandlers(nil, func(_ *channel.State, _ client.ChannelUpdate, r *client.UpdateResponder) {
 			ctx, cancel := context.WithTimeout(context.Background(), HangLimit)
 			defer cancel()
+			select {
+			case pr.HandlerEntered[i] <- struct{}{}:
+			default:
+			}
+			if d := pr.HandlerDelay[i].Load(); d > 0 {
+				time.Sleep(time.Duration(d))
+			}
+			if pr.CtxEndsAfterAccept[i].Load() {
+				pr.accMu.Lock()
+				pr.accCancel[i] = cancel
+				pr.accMu.Unlock()
+			}
 			if pr.accept[i].Load() {
 				_ = r.Accept(ctx)
 			} else {
@@ -62,6 +91,22 @@ func NewPairOpt(ser wire.EnvelopeSerializer, key0, key1 int, watch [2]bool) (*Pa
 			}
 		})
 	}
+	env.Bus.Tap(func(e *wire.Envelope) {
+		if _, ok := e.Msg.(*client.ChannelUpdateAccMsg); !ok {
+			return
+		}
+		for i := 0; i < 2; i++ {
+			if wire.Keys(e.Sender) == wire.Keys(pr.P[i].WireAddr) {
+				pr.accMu.Lock()
+				cancel := pr.accCancel[i]
+				pr.accCancel[i] = nil
+				pr.accMu.Unlock()
+				if cancel != nil {
+					cancel()
+				}
+			}
+		}
+	})
 	return pr, nil
 }
 
